@@ -23,6 +23,7 @@ import (
 	"math/rand/v2"
 	"net"
 	"net/http"
+	"os"
 	"runtime/debug"
 	"sort"
 	"strings"
@@ -265,6 +266,11 @@ type vsrvStream struct {
 	hParked   bool
 }
 
+type vsrvTraceEnt struct {
+	f string
+	a []any
+}
+
 type vsrvViol struct {
 	Key    string
 	Detail string
@@ -301,30 +307,32 @@ type vsrvSession struct {
 	sbuf         []byte
 
 	// shadow state
-	snaps      []vsrvSnap // [0] = protocol defaults, then one per client SETTINGS frame
-	acked      int        // SETTINGS ACK frames seen from the server
-	lo         int        // lowest snapshot index the server can still be at
-	connWin    int64
-	connHit0   bool
-	streams    map[uint32]*vsrvStream
-	order      []uint32
-	pings      [][8]byte
-	pingAcks   int
-	srvFrames  int64
-	advMax     int64 // server-advertised MAX_CONCURRENT_STREAMS, -1 = none
-	goAway     bool
-	goAwayCode uint32
-	cHdrOpen   uint32
-	sHdrOpen   uint32
-	sHdrBuf    []byte
-	hRunning   int
-	hMax       int
-	hStarts    int
-	hRetSince  int // handler returns since the last evaluated quiescent point
-	panics     []string
-	expectGone bool // script sent something after which the server may legitimately hang up
+	snaps         []vsrvSnap // [0] = protocol defaults, then one per client SETTINGS frame
+	acked         int        // SETTINGS ACK frames seen from the server
+	lo            int        // lowest snapshot index the server can still be at
+	connWin       int64
+	connHit0      bool
+	streams       map[uint32]*vsrvStream
+	order         []uint32
+	pings         [][8]byte
+	pingAcks      int
+	lastPingAck   [8]byte
+	srvFrames     int64
+	advMax        int64 // server-advertised MAX_CONCURRENT_STREAMS, -1 = none
+	goAway        bool
+	goAwayCode    uint32
+	cHdrOpen      uint32
+	sHdrOpen      uint32
+	sHdrBuf       []byte
+	hRunning      int
+	hMax          int
+	hStarts       int
+	hRetSince     int // handler returns since the last evaluated quiescent point
+	maxQueuedSeen int // C16: largest sc.queuedControlFrames sampled
+	panics        []string
+	expectGone    bool // script sent something after which the server may legitimately hang up
 
-	trace    []string
+	trace    []vsrvTraceEnt
 	traceCut int
 	viols    []*vsrvViol
 	ev       map[string]int64
@@ -374,6 +382,11 @@ func vsrvInstallPanicHook() {
 }
 
 func vsrvNewSession(cfg vsrvConfig) *vsrvSession {
+	if g := os.Getenv("VSRV_DEBUG_GROUPS"); g != "" { // debugging aid: enable extra oracle groups
+		for _, c := range g {
+			cfg.Groups |= 1 << (c - '0')
+		}
+	}
 	s := &vsrvSession{cfg: cfg, streams: map[uint32]*vsrvStream{}, ev: map[string]int64{},
 		plans: map[uint32]*vsrvPlan{}, advMax: -1, cPrefaceLeft: len(h2ref.ClientPreface)}
 	s.cond = sync.NewCond(&s.mu)
@@ -578,8 +591,10 @@ func (s *vsrvSession) cliSettingsAck() { s.cliWrite(h2ref.AppendSettingsAck(nil)
 func (s *vsrvSession) cliWindowUpdate(stream, incr uint32) {
 	s.cliWrite(h2ref.AppendWindowUpdate(nil, stream, incr))
 }
-func (s *vsrvSession) cliRST(stream, code uint32) { s.cliWrite(h2ref.AppendRSTStream(nil, stream, code)) }
-func (s *vsrvSession) cliPing(data [8]byte)       { s.cliWrite(h2ref.AppendPing(nil, false, data)) }
+func (s *vsrvSession) cliRST(stream, code uint32) {
+	s.cliWrite(h2ref.AppendRSTStream(nil, stream, code))
+}
+func (s *vsrvSession) cliPing(data [8]byte) { s.cliWrite(h2ref.AppendPing(nil, false, data)) }
 func (s *vsrvSession) cliData(stream uint32, end bool, data []byte) {
 	s.cliWrite(h2ref.AppendData(nil, stream, end, data, -1))
 }
@@ -643,13 +658,15 @@ func (s *vsrvSession) markMalformed(stream uint32) {
 
 // bookkeeping (all below: s.mu held) ------------------------------------------------------
 
+// tr records a trace event; formatting is deferred until a history is actually printed, so
+// arguments must not alias buffers that are reused (pass values, not sub-slices).
 func (s *vsrvSession) tr(format string, a ...any) {
 	const keep = 600
 	if len(s.trace) >= keep {
-		s.trace = s.trace[keep/2:]
+		s.trace = append(s.trace[:0], s.trace[keep/2:]...)
 		s.traceCut += keep / 2
 	}
-	s.trace = append(s.trace, fmt.Sprintf(format, a...))
+	s.trace = append(s.trace, vsrvTraceEnt{format, a})
 }
 
 func (s *vsrvSession) history(n int) string {
@@ -659,7 +676,13 @@ func (s *vsrvSession) history(n int) string {
 		cut += len(t) - n
 		t = t[len(t)-n:]
 	}
-	return fmt.Sprintf("[history: %d earlier events omitted]\n  %s", cut, strings.Join(t, "\n  "))
+	var b strings.Builder
+	fmt.Fprintf(&b, "[history: %d earlier events omitted]", cut)
+	for _, e := range t {
+		b.WriteString("\n  ")
+		fmt.Fprintf(&b, e.f, e.a...)
+	}
+	return b.String()
 }
 
 func (s *vsrvSession) viol(group int, key, format string, a ...any) {
@@ -828,17 +851,17 @@ func (s *vsrvSession) onClientFrame(f h2ref.Frame) {
 		s.ev["client_rst_stream"]++
 		s.tr("C> RST_STREAM s=%d code=%d", f.StreamID, code)
 	case h2ref.TypePing:
-		if f.StreamID == 0 && !f.Has(h2ref.FlagAck) {
-			if d, err := f.Ping(); err == nil {
-				s.pings = append(s.pings, d)
-				s.ev["client_pings"]++
-			}
+		d, perr := f.Ping()
+		if f.StreamID == 0 && !f.Has(h2ref.FlagAck) && perr == nil {
+			s.pings = append(s.pings, d)
+			s.ev["client_pings"]++
 		}
-		s.tr("C> PING flags=0x%x %x", f.Flags, f.Payload)
+		s.tr("C> PING flags=0x%x len=%d %x", f.Flags, f.Length, d)
 	case h2ref.TypeGoAway:
 		s.tr("C> GOAWAY")
 		s.expectGone = true
 	default:
+		f.Payload = nil
 		s.tr("C> %v", f)
 	}
 }
@@ -910,6 +933,7 @@ func (s *vsrvSession) onServerFrame(f h2ref.Frame) {
 		d, _ := f.Ping()
 		s.tr("S> PING ACK %x", d)
 		s.ev["server_ping_acks"]++
+		s.lastPingAck = d
 		if s.cGarbage {
 			break
 		}
@@ -969,6 +993,7 @@ func (s *vsrvSession) onServerFrame(f h2ref.Frame) {
 			st.srvEnd = true
 		}
 	default:
+		f.Payload = nil
 		s.tr("S> %v", f)
 	}
 }
@@ -1227,9 +1252,12 @@ func (s *vsrvSession) settle() {
 	if s.acked != len(s.snaps)-1 {
 		s.viol(vsrvGrpState, "settings-ack-missing", "at quiescence (connection open, server idle, all client bytes consumed, all server output read) the client has sent %d SETTINGS frames but the server has sent %d SETTINGS ACKs", len(s.snaps)-1, s.acked)
 	}
-	// C08: bounded progress
+	// C08: bounded progress (needs the write accounting of the plan-driven handler)
 	cur := s.sentSnap()
 	for _, id := range s.order {
+		if s.cfg.Handler != nil {
+			break
+		}
 		st := s.streams[id]
 		if !st.hStarted || st.cliRST || st.srvRST || st.srvEnd || st.hWriteErr {
 			continue
@@ -1302,19 +1330,28 @@ func vsrvPanicKey(sched, p string) string {
 
 // vsrvBubble runs fn inside a synctest bubble and converts panics (of fn, or the bubble's
 // deadlock / leaked-goroutine panic) into a returned description.
+//
+// synctest.Test runs on a goroutine of its own: when the race detector reports a race during
+// a bubble, testing marks the bubble's T failed and synctest.Test calls FailNow on the parent
+// T, i.e. runtime.Goexit on the calling goroutine — which must not be a verifrt worker.
 func vsrvBubble(tb testing.TB, fn func()) (inner, outer string) {
-	defer func() {
-		if e := recover(); e != nil {
-			outer = fmt.Sprint(e)
-		}
-	}()
-	synctest.Test(tb.(*testing.T), func(t *testing.T) {
+	done := make(chan struct{})
+	go func() {
+		defer close(done)
 		defer func() {
 			if e := recover(); e != nil {
-				inner = fmt.Sprintf("%v\n%s", e, debug.Stack())
+				outer = fmt.Sprint(e)
 			}
 		}()
-		fn()
-	})
+		synctest.Test(tb.(*testing.T), func(t *testing.T) {
+			defer func() {
+				if e := recover(); e != nil {
+					inner = fmt.Sprintf("%v\n%s", e, debug.Stack())
+				}
+			}()
+			fn()
+		})
+	}()
+	<-done
 	return
 }
